@@ -1,60 +1,105 @@
 import NsyncVerif.Props.C05Mu
-import NsyncVerif.Proofs.MuCInv5Reach
-import NsyncVerif.Proofs.MuCRing
+import NsyncVerif.Proofs.MuCOther2
+import NsyncVerif.Proofs.MuCInv11Reach
 /-!
 # C06 — conditional critical sections
 
-Model: `NsyncVerif.Model.MuC`.  See the header of `Props/C05Mu.lean` for the conventions.
+Model: `NsyncVerif.Model.MuC` — the code of /repo AFTER the repair of defect F8 (commit ace4c21,
+internal/mu_wait.c: `had_waiters = (old_word & MU_WAITING) != 0` at the enqueue CAS; the release loop
+tests MU_DESIG_WAKER on the word it has just loaded).  See the header of `Props/C05Mu.lean` for the
+conventions.  Everything below is for `Reachable cfg s`: every program, interleaving, thread count,
+clock; both semaphore flavours.
 
-What is machine-checked here (all for `Reachable cfg s`, i.e. every program, interleaving, thread
-count, clock; both semaphore flavours)
-* `C06_cond_under_lock`  every accepted `cond` evaluation is made by a thread that owns a share of the
-                         mutex (own share inside mu_wait, or the writer bit — incl. the temporary
-                         writer lock of unlock_slow); no OTHER thread owns the writer bit, hence none is
-                         in a write critical section; the condition is the one the model prescribes
-                         (for unlock_slow: the head of `new_waiters` after the skips the same_condition
-                         rings allow) and the logged result is its value on the model's data.
+PROVED (theorems; each `def …_full : Prop` that is proved has a theorem of that type)
+* `C06_cond_under_lock`   every accepted `cond` evaluation is made by a thread that owns a share of the
+                          mutex (own share inside mu_wait, or the writer bit — incl. the temporary
+                          writer lock of unlock_slow); no OTHER thread owns the writer bit; the condition
+                          is the one the model prescribes and the logged result is its value on the
+                          model's data.
 * `C06_inv_lock`, `C06_inv_spin`, `C06_inv_queue`
-                         the invariants (I_lock) (I_spin) (I_queue) re-proved for the extended model
-                         (conditions, timeouts, self-removal, unlock_without_wakeup, private lists of
-                         an unlocker that releases the spinlock while it evaluates).
-* `C06_hint_partial`     MU_CONDITION clear ⇒ no queued waiter (mu->waiters or an unlocker's private
-                         lists) has a condition.
-* `C06_samecond_ring_full_refuted`
-                         the "exactly the maximal runs" reading of the ring invariant is FALSE for the
-                         code (witness: harness execution `traceNotMaximal`); the direction the skip of
-                         unlock_slow needs is stated as `C06_samecond_ring_sound_full` (not proved).
-* `C06_samecond_ring_partial`
-                         given that ring invariant for the list being scanned, skip_past_same_condition
-                         passes only over waiters whose conditions denote the same predicate as the
-                         one just found false (pure fact about the transcription).
+                          (I_lock) (I_spin) (I_queue) for the extended model.
+* `C06_samecond_ring_sound : C06_samecond_ring_sound_full`
+                          the same_condition ring invariant (`Chain`) holds on mu->waiters and on both
+                          private lists of an unlocker in every reachable state (Proofs/MuCInv6*).
+* `C06_skip_sound`        hence the skip of unlock_slow is sound, unconditionally: after an accepted
+                          evaluation `false`, every waiter skip_past_same_condition passes over has a
+                          condition that is false on the current data.
+  `C06_samecond_ring_partial` (the older conditional form) is kept.
+* `C06_hint : C06_hint_full`
+                          MU_CONDITION clear ⇒ no queued waiter has a condition (`C06_hint_partial`);
+                          MU_ALL_FALSE set, nobody owns the writer bit, contract of
+                          unlock_without_wakeup kept ⇒ every queued waiter has a condition and it is
+                          false on the current data.  `C06_hint_all_false` is the general form (also
+                          while a write section is open: then "false on the data as it was when the
+                          section began", and only while nobody is `susp`ended).  Proofs/MuCInv7*.
+* `C06_true_cond_has_responsible`  (I_resp, Proofs/MuCInv8*–MuCInv11*)
+                          contract kept and some queued waiter has a condition that is TRUE on the
+                          current data ⇒ some thread is responsible: owns a share / is an unlocker between
+                          grab CAS and final CAS / is in flight / spins after a timeout.
+* `C06_desig_waker_justified`
+                          MU_DESIG_WAKER set ⇒ an unlocker is mid-scan or a woken thread is in flight.
+* `C06_no_missed_cond : C06_no_missed_cond_full`
+                          quiescent state, contract kept ⇒ every waiter on mu->waiters that has a
+                          condition has a FALSE condition.  (Non-vacuous: `C06_quiescent_witness`.)
+* `C06_without_wakeup_sound`, `C06_without_wakeup_no_missed`
+                          the corrected statements for nsync_mu_unlock_without_wakeup: on the
+                          MU_ALL_FALSE fast path every queued waiter has a false condition; on ANY fast
+                          path either no queued condition is true or another thread is responsible.
+
 * witnesses (`decide` on accepted traces of the real library): two eq-equivalent waiters woken by one
-  nsync_mu_unlock; the reader-mode timeout under a writer (the F6 path of mu_wait.c) with the fresh
-  reader acquiring, and the acceptor rejecting the store of the unfixed code; unlock_without_wakeup
-  leaving a false-condition waiter asleep on its MU_ALL_FALSE fast path.
+  nsync_mu_unlock (`traceEqPair`); the reader-mode timeout under a writer (the F6 path of mu_wait.c)
+  with the fresh reader acquiring, and the acceptor rejecting the store of the unfixed code
+  (`traceReaderTimeout`); unlock_without_wakeup leaving a false-condition waiter asleep on its
+  MU_ALL_FALSE fast path (`traceNoWakeup`); a contract violation seen by the ghost (`traceNwViol`).
 
-NOT proved (statements kept as `def …_full : Prop`):
-* `C06_hint_full` second half (MU_ALL_FALSE ⇒ every queued waiter has a false condition, when nobody
-  owns spinlock or writer bit and the contract of unlock_without_wakeup was kept).  Needs
-  `C06_samecond_ring_sound_full` (the skip is sound) and an invariant that carries "all false" through
-  write sections that end with unlock_without_wakeup and through mu_try_acquire_after_timeout_or_cancel.
-* `C06_samecond_ring_sound_full`, `C06_no_missed_cond_full`, `C06_no_stuck_state_full`,
-  `C06_without_wakeup_sound_full`.
-  For these the evidence is the correspondence check: ≥ 6000 harness executions of the families
-  `muwait` / `muc` accepted with zero REJECT, in which the acceptor recomputes every skip (it prescribes
-  WHICH condition is evaluated next) and the harness oracles `stuck`, `muwait-result`,
-  `cond-under-lock` never fired; the mutants (a)–(d) of the tie are rejected.
+REFUTED as stated (concrete accepted traces of the real library, by `decide`), corrected versions proved
+* `C06_samecond_ring_full_refuted`      rings are not the maximal runs (WAIT_CONDITION_EQ is asymmetric);
+                                        corrected: `C06_samecond_ring_sound_full` (proved).
+* `C06_without_wakeup_sound_full_refuted`  the fast path is also taken when MU_DESIG_WAKER is set, with
+                                        condition-less waiters queued (`traceNwDesig`); corrected:
+                                        `C06_without_wakeup_sound`, `C06_without_wakeup_no_missed`.
 
-Findings
+NOT proved (kept as `def …_full : Prop`)
+* `C06_no_stuck_state_full`.  Proved of it: `C06_no_stuck_state_partial` — in a quiescent state (contract
+  kept) every sleeper's record is still on mu->waiters with `waiting` set, and if the record has a
+  condition the condition is false.  MISSING: that no thread sleeps inside nsync_mu_lock /
+  nsync_mu_rlock (a record WITHOUT condition) in a quiescent state.  That is (I_resp) for condition-less
+  waiters; its induction needs that the two hints which make an ARRIVING thread queue itself on a free
+  mutex are never stale — MU_WRITER_WAITING (some writer that could run is queued, in flight or spinning
+  in mu_try_acquire_after_timeout_or_cancel) and MU_LONG_WAIT (some thread with `long_wait` set is
+  queued or in flight).  Those two invariants are not proved; the evidence for them is the harness
+  oracle `stuck` (never fired on the repaired code, see below).
+
+DEFECT F8 (found by this proof attempt; genuine; repaired in /repo by ace4c21)
+  In the pinned code `had_waiters` of nsync_mu_wait_with_deadline was computed as
+  `(old_word & (MU_DESIG_WAKER|MU_WAITING)) == MU_WAITING` at the enqueue CAS and the release loop did
+  not look at MU_DESIG_WAKER again: a reader-mode waiter that queued itself while a designated waker
+  was in flight released the last read lock without calling unlock_slow although, by the time of the
+  release, the designated waker had acquired and gone.  Both `_full` statements about quiescent states
+  were FALSE for that code: `C06_no_stuck_state_old_code_witness` (a thread asleep inside nsync_mu_lock
+  on a free mutex) and `C06_no_missed_cond_old_code_witness` (a nsync_mu_wait waiter asleep with a true
+  condition).  They are statements about `runOld` (the old rule, kept as a 2-program-point variant of
+  `step`), NOT about the current model, which rejects both traces at the waiter's release load.
+  Scenarios: /verif/corpus/C06/f8_*.txt (now regressions: outcome `ok` on the repaired library).
+
+Model changes of this delivery (acceptor re-validated, see the delivery report)
+* F8 rule (above).
+* ghost `secStart`: a nsync_mu_wait that returns at once (`MW.first`: NULL or true condition, mutex never
+  released) no longer re-takes the snapshot of the protected data — the caller's write section simply
+  continues.  Before, a section  lock; x := …; nsync_mu_wait(NULL); unlock_without_wakeup  hid a contract
+  violation from `nwViol` (`traceNwViol`).  Ghost only: accepts the same logs.
+
+Other findings
 * WAIT_CONDITION_EQ is asymmetric (only its first argument's `eq` is consulted): rings are not maximal
-  runs (see above); harmless for correctness, costs evaluations.
+  runs; harmless for correctness, costs evaluations.
 * skip_past_same_condition does not skip when the ring is the whole list (`last == p->prev`): the second
   member is evaluated again (`traceEqPair`, events 32-33).
 * After a timed-out waiter has removed itself from the queue (mu_wait.c:100-109) MU_WAITING,
   MU_CONDITION and MU_ALL_FALSE can stay set on a free mutex with an EMPTY queue (word 148 at the
   end of `traceReaderTimeout`): "MU_WAITING indicates whether the waiter queue is non-empty"
-  (common.h:116) holds only in the direction queue non-empty ⇒ bit set.  Harmless: the next
-  nsync_mu_unlock takes the slow path, finds nothing and clears the bits.
+  (common.h:116) holds only in the direction queue non-empty ⇒ bit set.  Harmless.
+* nsync_mu_unlock_without_wakeup takes its fast path under MU_DESIG_WAKER too (mu_wait.c:320): its
+  comment "no waiter whose condition is true" is to be read modulo the designated waker.
 -/
 namespace NsyncVerif.MuC
 
@@ -576,11 +621,21 @@ theorem C06_samecond_ring_full_refuted : ¬ C06_samecond_ring_full := by
 /-- The direction the code guarantees (and the one the skip of unlock_slow needs): on every list of
     waiters (`Chain`, Proofs/MuCRing.lean) a record the model links to its successor has a condition
     that denotes the same predicate as the successor's, and the last record is not linked — so all
-    members of a ring have the same truth value.  NOT proved as an invariant. -/
+    members of a ring have the same truth value.  PROVED: `C06_samecond_ring_sound`. -/
 def C06_samecond_ring_sound_full : Prop :=
   ∀ (cfg : Cfg) (s : State), Reachable cfg s →
     Chain s.wr s.queue ∧
     ∀ u sc, (s.pc u).scan? = some sc → Chain s.wr sc.done ∧ Chain s.wr (sc.passed ++ sc.todo)
+
+/-- The ring invariant holds in every reachable state, on mu->waiters and on both private lists of an
+    unlocker (`waiters`, `new_waiters`).  It is preserved by nsync_maybe_merge_conditions_ at either end
+    of the queue and at the junction of `waiters` and `new_waiters` (mu.c:403), by both branches of the
+    fix-up in nsync_remove_from_mu_queue_ (unlink, or re-merge of the two neighbours), and needs: every
+    stored condition agrees with what its argument object denotes (`Inv6.cwr`, from the contract of
+    nsync_mu_wait that an argument object does not change its meaning), a record on no list is not
+    linked (`Inv6.off`), and the lists are duplicate-free and disjoint (I_queue). -/
+theorem C06_samecond_ring_sound : C06_samecond_ring_sound_full :=
+  fun _ _ hr => ⟨(reachable_inv6 hr).cq, (reachable_inv6 hr).cs⟩
 
 /-- What IS proved about the rings: under the ring invariant of the list being scanned, the skip of
     unlock_slow (mu.c:369-372, `skipPast`) passes only over waiters whose conditions denote the same
@@ -595,7 +650,34 @@ theorem C06_samecond_ring_partial {wr : Wid → WRec} {passed rest : List Wid} {
       ∀ x, x ∈ (skipPast wr passed k rest).1 → x ∉ passed → evalOpt data (wr x).cond = false) :=
   ⟨skipPast_sound hc, skipPast_false hc⟩
 
-/-- Meaning of MU_CONDITION and MU_ALL_FALSE (common.h:118-134). -/
+/-- The skip is sound, unconditionally: whenever the acceptor accepts an evaluation `false` of the
+    condition of waiter `w` inside nsync_mu_unlock_slow_, every waiter the scan then passes over
+    without evaluating it (`skipped`: the rest of w's same_condition ring, mu.c:372) has a condition,
+    and that condition is false on the current protected data. -/
+theorem C06_skip_sound {cfg : Cfg} {s s' : State} {t : Tid} {fn : CFn} {k : Nat} {r : Ret} {sc : Scan} {w : Wid} {rest : List Wid}
+    (hr : Reachable cfg s) (h : step cfg s (.cond t fn k false) = .ok s') (hpc : s.pc t = .usEval r sc) (htodo : sc.todo = w :: rest) :
+    ∃ skipped, (skipPast s.wr sc.passed w rest).1 = sc.passed ++ w :: skipped ∧
+      skipped ++ (skipPast s.wr sc.passed w rest).2 = rest ∧
+      ∀ x, x ∈ w :: skipped → ∃ c, (s.wr x).cond = some c ∧ evalCond s.data c = false := by
+  have h6 := reachable_inv6 hr
+  have hchain : Chain s.wr (sc.passed ++ w :: rest) := by
+    rw [← htodo]; exact (h6.cs t sc (by rw [hpc]; rfl)).2
+  obtain ⟨sk, h1, h2, h3⟩ := skipPast_sound hchain
+  obtain ⟨_, _, c, hfn, hk, hres, hwhich⟩ := C06_cond_under_lock hr h
+  have hw : CondFalse s s.data w := by
+    rcases hwhich with ⟨m, hm, _⟩ | ⟨r', sc', w', rest', hp', ht', hc'⟩
+    · rw [hpc] at hm; cases hm
+    · rw [hpc] at hp'; cases hp'
+      rw [htodo] at ht'; cases ht'
+      exact ⟨c, hc', hres.symm⟩
+  refine ⟨sk, h1, h2, ?_⟩
+  intro x hx
+  simp only [List.mem_cons] at hx
+  rcases hx with rfl | hx
+  · exact hw
+  · exact condFalse_of_sameSem (h3 x hx) hw
+
+/-- Meaning of MU_CONDITION and MU_ALL_FALSE (common.h:118-134).  PROVED: `C06_hint`. -/
 def C06_hint_full : Prop :=
   ∀ (cfg : Cfg) (s : State), Reachable cfg s →
     (s.word.cond = false → ∀ k, Queued s k → (s.wr k).cond = none) ∧
@@ -612,6 +694,45 @@ theorem C06_hint_partial {cfg : Cfg} {s : State} (hr : Reachable cfg s) (hc : s.
   | some c =>
     have := (reachable_inv5 hr).h1 k hk (by rw [hcd]; simp)
     rw [hc] at this; cases this
+
+/-- MU_ALL_FALSE, general form.  While the bit is set every queued waiter (mu->waiters and the private
+    lists of an unlocker) has a condition — unconditionally.  If moreover every write section that ended
+    with nsync_mu_unlock_without_wakeup kept the contract of that call, and nobody is `susp`ended (no
+    writer is inside nsync_mu_unlock before its release CAS, no unlocker that tests conditions is
+    between its grab CAS and its final CAS), that condition is false: on the protected data as it was
+    when the current write section began while a client write section is open (`SecOpen`: the client
+    holds the mutex in write mode, or is in the first iteration of nsync_mu_wait before it has queued
+    itself), and on the current data otherwise. -/
+theorem C06_hint_all_false {cfg : Cfg} {s : State} (hr : Reachable cfg s) (haf : s.word.af = true) (k : Wid) (hk : Queued s k) :
+    (s.wr k).cond ≠ none ∧
+    (WithoutWakeupContract s → (∀ u, (s.pc u).susp = false) →
+      ∃ c, (s.wr k).cond = some c ∧ (SecOpen s → evalCond s.secStart c = false) ∧ (¬ SecOpen s → evalCond s.data c = false)) := by
+  obtain ⟨a, b⟩ := (reachable_inv7 hr).a1 haf k hk
+  refine ⟨a, fun hc hns => ?_⟩
+  cases hcd : (s.wr k).cond with
+  | none => exact absurd hcd a
+  | some c =>
+    refine ⟨c, rfl, fun ho => ?_, fun hcl => ?_⟩
+    · obtain ⟨c', h1, h2⟩ := b hc hns s.secStart (refData_of_open ho)
+      rw [hcd] at h1; cases h1; exact h2
+    · obtain ⟨c', h1, h2⟩ := b hc hns s.data (refData_of_closed hcl)
+      rw [hcd] at h1; cases h1; exact h2
+
+/-- `C06_hint_full` as stated (the hypothesis `s.sp = none` is not even needed): on a mutex whose
+    writer bit nobody owns, MU_ALL_FALSE set means that every queued waiter has a condition and it is
+    false on the current protected data. -/
+theorem C06_hint : C06_hint_full := by
+  intro cfg s hr
+  refine ⟨C06_hint_partial hr, ?_⟩
+  intro haf _ hw hc k hk
+  have h1 := reachable_inv1 hr
+  obtain ⟨c, h1', _, h3⟩ := (C06_hint_all_false hr haf k hk).2 hc (no_susp_of_free h1 hw)
+  exact ⟨c, h1', h3 (not_secOpen_of_free h1 hw)⟩
+
+/-- A state with MU_ALL_FALSE set, a queued waiter, nobody owning writer bit or spinlock (non-vacuity of
+    `C06_hint`): `traceNoWakeup` after the first nsync_mu_unlock_without_wakeup has returned. -/
+example : stateAfter ⟨false⟩ (traceNoWakeup.take 33) (fun s => s.word.af && s.queue == [0] && s.sp == none && s.wOwner == none
+    && !s.nwViol && !evalOpt s.data (s.wr 0).cond) = true := by decide
 
 /-! ## the invariants re-proved for the extended model (lock, spinlock, queue) -/
 
@@ -651,24 +772,637 @@ theorem C06_inv_queue {cfg : Cfg} {s : State} (hr : Reachable cfg s) :
   have inv := reachable_inv4 hr
   exact ⟨inv.own, inv.uniq, inv.nd, inv.wait, inv.wk, inv.wkd, inv.finq⟩
 
-/-- No waiter whose condition is true is left asleep when nobody is active. -/
+/-- No waiter whose condition is true is left asleep when nobody is active.
+    PROVED for the model of the repaired code (`C06_no_missed_cond`); it was FALSE for the pinned code
+    before the repair of defect F8 (`C06_no_missed_cond_old_code_witness`). -/
 def C06_no_missed_cond_full : Prop :=
   ∀ (cfg : Cfg) (s : State), Reachable cfg s → Quiescent s → WithoutWakeupContract s →
     ∀ k c, k ∈ s.queue → (s.wr k).cond = some c → evalCond s.data c = false
 
 /-- With the contract of nsync_mu_unlock_without_wakeup respected, the only threads that can be
-    asleep in a quiescent state are waiters whose conditions are false. -/
+    asleep in a quiescent state are waiters whose conditions are false.
+    NOT proved (see `C06_no_stuck_state_partial` for what is).  It was FALSE for the pinned code before
+    the repair of defect F8, where a thread could be left asleep inside nsync_mu_lock on a free mutex:
+    `C06_no_stuck_state_old_code_witness`. -/
 def C06_no_stuck_state_full : Prop :=
   ∀ (cfg : Cfg) (s : State), Reachable cfg s → Quiescent s → WithoutWakeupContract s →
     ∀ t, Asleep s t → ∃ c k cd, s.pc t = .mwPdRet c none ∧ c.w = some k ∧ k ∈ s.queue ∧
       (s.wr k).cond = some cd ∧ evalCond s.data cd = false
 
+/-! ## somebody is responsible for every waiter whose condition is true (repaired code) -/
+
+/-- (I_resp) In every reachable state in which the contract of nsync_mu_unlock_without_wakeup was kept:
+    if some queued waiter (on mu->waiters or on the private lists of an unlocker) has a condition that is
+    true on the current data, then some thread is RESPONSIBLE: it owns a share of the mutex (it will
+    release), or it is an unlocker between grab CAS and final CAS, or it is in flight (woken inside
+    lock_slow with `clear` pending, or its record has been taken off the queue and it has not yet
+    re-contended), or it spins in mu_try_acquire_after_timeout_or_cancel / the loop around it. -/
+theorem C06_true_cond_has_responsible {cfg : Cfg} {s : State} (hr : Reachable cfg s) (hc : WithoutWakeupContract s)
+    (k : Wid) (c : Cond) (hk : Queued s k) (hcd : (s.wr k).cond = some c) (hev : evalCond s.data c = true) :
+    ∃ t, RespT s t :=
+  (reachable_inv11 hr).nm hc ⟨k, c, hk, hcd, hev⟩
+
+/-- MU_DESIG_WAKER is never stale: while it is set, an unlocker is between grab CAS and final CAS or a
+    woken thread is in flight (this is what makes the fast paths that test the bit sound). -/
+theorem C06_desig_waker_justified {cfg : Cfg} {s : State} (hr : Reachable cfg s) (hd : s.word.desig = true) :
+    ∃ t, (s.pc t).unl = true ∨ InFlight s t :=
+  (reachable_inv11 hr).hd hd
+
+theorem quiescent_pc {s : State} (hq : Quiescent s) (u : Tid) :
+    s.pc u = .idle ∨ (∃ c, s.pc u = .lsPRet c) ∨ ∃ c, s.pc u = .mwPdRet c none := by
+  rcases hq u with ⟨a, _⟩ | ⟨c, k, a, _⟩ | ⟨c, k, a, _⟩
+  · exact Or.inl a
+  · exact Or.inr (Or.inl ⟨c, a⟩)
+  · exact Or.inr (Or.inr ⟨c, a⟩)
+
+/-- In a quiescent state a sleeper's record is still on mu->waiters with `waiting` set. -/
+theorem quiescent_sleeper_queued {cfg : Cfg} {s : State} (hr : Reachable cfg s) (hq : Quiescent s) {t : Tid} {k : Wid}
+    (hp : (s.pc t).pwait = some k) (hw : (s.pc t).waitRec = some k) (hsem : (s.wr k).sem = 0) :
+    (s.wr k).waiting = true ∧ k ∈ s.queue := by
+  have h9 := reachable_inv9 hr
+  have hnowk : ∀ u, (s.pc u).wakeL = [] := by
+    intro u
+    rcases quiescent_pc hq u with a | ⟨c, a⟩ | ⟨c, a⟩ <;> rw [a] <;> rfl
+  have hnosc : ∀ u, (s.pc u).scan? = none := by
+    intro u
+    rcases quiescent_pc hq u with a | ⟨c, a⟩ | ⟨c, a⟩ <;> rw [a] <;> rfl
+  have hwt : (s.wr k).waiting = true := by
+    cases e : (s.wr k).waiting with
+    | true => rfl
+    | false =>
+      exfalso
+      rcases h9.w1 t k hp e with a | ⟨u, r, rest, a⟩
+      · exact a hsem
+      · rcases quiescent_pc hq u with b | ⟨c, b⟩ | ⟨c, b⟩ <;> rw [b] at a <;> cases a
+  refine ⟨hwt, ?_⟩
+  rcases h9.w3 t k hw hwt with (a | ⟨u, sc, a, _⟩) | ⟨u, a⟩
+  · exact a
+  · rw [hnosc u] at a; cases a
+  · rw [hnowk u] at a; cases a
+
+/-- In a quiescent state nobody is responsible. -/
+theorem quiescent_not_resp {cfg : Cfg} {s : State} (hr : Reachable cfg s) (hq : Quiescent s) (t : Tid) : ¬ RespT s t := by
+  have h1 := (reachable_inv_all hr).1
+  rcases hq t with ⟨a, b⟩ | ⟨c, k, a, b, d⟩ | ⟨c, k, a, b, d⟩
+  · rintro (e | (e | e | ⟨x, e, _⟩) | e)
+    · simp [shareOf, tshare, a, b, pcShare] at e
+    · rw [a] at e; cases e
+    · rw [a] at e; cases e
+    · rw [a] at e; cases e
+    · rw [a] at e; cases e
+  · have hheld : s.held t = none := h1.held_none (by rw [a]; simp)
+    have hqd := quiescent_sleeper_queued hr hq (t := t) (k := k) (by rw [a]; exact b) (by rw [a]; exact b) d
+    rintro (e | (e | e | ⟨x, e, _, f⟩) | e)
+    · simp [shareOf, tshare, a, hheld, pcShare] at e
+    · rw [a] at e; cases e
+    · rw [a] at e; cases e
+    · rw [a] at e; simp only [PC.waitRec, b, Option.some.injEq] at e; subst e
+      exact f (Or.inl hqd.2)
+    · rw [a] at e; cases e
+  · have hheld : s.held t = none := h1.held_none (by rw [a]; simp)
+    have hqd := quiescent_sleeper_queued hr hq (t := t) (k := k) (by rw [a]; exact b) (by rw [a]; exact b) d
+    rintro (e | (e | e | ⟨x, e, _, f⟩) | e)
+    · simp [shareOf, tshare, a, hheld, pcShare] at e
+    · rw [a] at e; cases e
+    · rw [a] at e; cases e
+    · rw [a] at e; simp only [PC.waitRec, b, Option.some.injEq] at e; subst e
+      exact f (Or.inl hqd.2)
+    · rw [a] at e; cases e
+
+/-- No waiter whose condition is true is left asleep when nobody is active (model of the repaired code). -/
+theorem C06_no_missed_cond : C06_no_missed_cond_full := by
+  intro cfg s hr hq hc k c hk hcd
+  cases hev : evalCond s.data c with
+  | false => rfl
+  | true =>
+    obtain ⟨t, ht⟩ := C06_true_cond_has_responsible hr hc k c (Or.inl hk) hcd hev
+    exact absurd ht (quiescent_not_resp hr hq t)
+
+/-- What is proved of `C06_no_stuck_state_full`: in a quiescent state (contract kept) every sleeper's
+    record is still on mu->waiters with `waiting` set — it has not been dequeued without being woken, nor
+    marked woken without a semaphore post — and if the record carries a condition, the condition is false
+    on the current data.  MISSING for the `_full` statement: that the record of a sleeper does carry a
+    condition, i.e. that no thread sleeps inside nsync_mu_lock / nsync_mu_rlock (`lsPRet`) in a quiescent
+    state.  That needs the analogue of (I_resp) for waiters WITHOUT a condition, which in turn needs the
+    hints that make an arriving thread queue itself on a free mutex — MU_WRITER_WAITING and MU_LONG_WAIT —
+    to be justified (a writer that can run is queued or in flight, resp. a long waiter is); those two
+    invariants are not proved. -/
+theorem C06_no_stuck_state_partial {cfg : Cfg} {s : State} (hr : Reachable cfg s) (hq : Quiescent s)
+    (hc : WithoutWakeupContract s) (t : Tid) (ha : Asleep s t) :
+    ∃ k, (s.pc t).pwait = some k ∧ k ∈ s.queue ∧ (s.wr k).waiting = true ∧
+      ∀ cd, (s.wr k).cond = some cd → evalCond s.data cd = false := by
+  rcases ha with ⟨c, k, a, b, d⟩ | ⟨c, k, a, b, d⟩
+  all_goals
+    (have hqd := quiescent_sleeper_queued hr hq (t := t) (k := k) (by rw [a]; exact b) (by rw [a]; exact b) d
+     exact ⟨k, by rw [a]; exact b, hqd.2, hqd.1, fun cd hcd => C06_no_missed_cond cfg s hr hq hc k cd hqd.2 hcd⟩)
+
+/-! ## defect F8 of the pinned code (repaired in /repo by commit ace4c21; the model follows the repaired code)
+
+`stepOld` / `runOld` are the acceptor for mu_wait.c as it was: `had_waiters` computed as
+`(old_word & (MU_DESIG_WAKER|MU_WAITING)) == MU_WAITING` at the enqueue CAS (mu_wait.c:201) and the
+release loop (mu_wait.c:222-229) not looking at MU_DESIG_WAKER again.  They differ from `step` / `run`
+at these two program points only.  The two traces below are harness executions of the pinned library
+(outcome `stuck`); the current acceptor rejects them at the waiter's release load. -/
+
+def stepOld (cfg : Cfg) (s : State) : Event → Except String State
+  | .cas t o loc exp new obs ok =>
+    match s.pc t with
+    | .mwEnqCas c old =>
+      match c.w with
+      | none => .error "no waiter record"
+      | some k =>
+        let nw := mwEnqWord c.cond.isSome old
+        let c' := { c with hadW := old.waiting && !old.desig, first := false }
+        let s1 := { s with word := nw, sp := some t }
+        casWord s o .acq loc exp new obs ok old nw
+          (setPc (if c.first then enqLast s1 k else enqFirst s1 k) t (.mwRelLd c')) (setPc s t (.mwEnqLd c))
+    | _ => step cfg s (.cas t o loc exp new obs ok)
+  | .ld t o loc obs =>
+    match s.pc t with
+    | .mwRelLd c =>
+      if !hasShare c.l s.word then .error "release loop of mu_wait on a word without the caller's share"
+      else
+        let sub := subWord c.l s.word
+        let add0 := !sub.wlock && sub.readers == 0 && c.hadW
+        ldWord s o loc obs (setPc s t (.mwRelCas c s.word add0))
+    | _ => step cfg s (.ld t o loc obs)
+  | e => step cfg s e
+
+def runOld (cfg : Cfg) (s : State) : List Event → Except String State
+  | [] => .ok s
+  | e :: es =>
+    match stepOld cfg s e with
+    | .ok s' => runOld cfg s' es
+    | .error m => .error m
+
+/-- DEFECT F8 (lost wake-up in nsync_mu_wait_with_deadline, reader mode; harness execution of the
+    pinned library, outcome `stuck`, /verif/corpus/C06/f8_muwait_stale_had_waiters.txt).
+    Thread 0 waits in read mode for x0 >= 1; thread 1 sets x0 := 1 and its nsync_mu_unlock wakes 0 and
+    leaves MU_DESIG_WAKER set (word 8, event 33); thread 2 takes a fresh read lock (8 → 264: the bit
+    stays); thread 3 (a writer) blocks behind it and queues itself (events 43-52); thread 2 calls
+    nsync_mu_wait on x1 == 1 and queues itself (event 58: 300 → 318) — `had_waiters` (mu_wait.c:201) is
+    FALSE because MU_DESIG_WAKER is set; it still holds the spinlock and its read lock when thread 0
+    acquires in read mode (318 → 566, clearing MU_DESIG_WAKER), returns from its wait and runlocks on the
+    fast path (two readers: 566 → 310); now thread 2 releases (event 72: 310 → 52): it is the last
+    reader, waiters are queued, there is no designated waker — but the stale `had_waiters` makes it
+    release WITHOUT nsync_mu_unlock_slow_.  Final state: word 52 = MU_WAITING|MU_CONDITION|
+    MU_WRITER_WAITING, no lock held, everybody idle or asleep: the writer 3 sleeps in nsync_mu_lock for
+    ever (and 2 waits for the x1 := 1 that 3 would have written). -/
+def traceF8 : List Event := [
+ .call 0 .rlock,
+ .cas 0 .acq .word 0 256 0 true,
+ .ret 0 .rlock .void,
+ .call 0 (.wait (some { fn := .ge, k := 3, var := 0, val := 1, hasEq := false }) none false),
+ .ld 0 .rlx .word 256,
+ .cond 0 .ge 3 false,
+ .st 0 .rlx (.waiting 0) 1 0,
+ .ld 0 .rlx (.rc 0) 0,
+ .ld 0 .rlx .word 256,
+ .cas 0 .acq .word 256 278 256 true,
+ .ld 0 .rlx .word 278,
+ .cas 0 .rel .word 278 20 278 true,
+ .ld 0 .acq (.waiting 0) 1,
+ .semPdEnter 0 0 none,
+ .call 1 .lock,
+ .cas 1 .acq .word 0 1 20 false,
+ .ld 1 .rlx .word 20,
+ .cas 1 .acq .word 20 21 20 true,
+ .ret 1 .lock .void,
+ .dataW 1 0 1,
+ .call 1 .unlock,
+ .cas 1 .rel .word 1 0 21 false,
+ .ld 1 .rlx .word 21,
+ .ld 1 .rlx .word 21,
+ .cas 1 .ar .word 21 31 21 true,
+ .ld 1 .rlx .word 31,
+ .cas 1 .rel .word 31 29 31 true,
+ .cond 1 .ge 3 true,
+ .ld 1 .rlx (.rc 0) 0,
+ .cas 1 .rlx (.rc 0) 0 1 0 true,
+ .ld 1 .rlx .word 29,
+ .cas 1 .acq .word 29 31 29 true,
+ .ld 1 .rlx .word 31,
+ .cas 1 .rel .word 31 8 31 true,
+ .st 1 .rel (.waiting 0) 0 1,
+ .semV 1 0,
+ .ret 1 .unlock .void,
+ .call 2 .rlock,
+ .cas 2 .acq .word 0 256 8 false,
+ .ld 2 .rlx .word 8,
+ .cas 2 .acq .word 8 264 8 true,
+ .ret 2 .rlock .void,
+ .call 2 (.wait (some { fn := .eq, k := 4, var := 1, val := 1, hasEq := false }) none false),
+ .call 3 .lock,
+ .cas 3 .acq .word 0 1 264 false,
+ .ld 3 .rlx .word 264,
+ .ld 3 .rlx .word 264,
+ .cas 3 .acq .word 264 302 264 true,
+ .st 3 .rlx (.waiting 1) 1 0,
+ .ld 3 .rlx .word 302,
+ .cas 3 .rel .word 302 300 302 true,
+ .ld 3 .acq (.waiting 1) 1,
+ .semPEnter 3 1,
+ .ld 2 .rlx .word 300,
+ .cond 2 .eq 4 false,
+ .st 2 .rlx (.waiting 2) 1 0,
+ .ld 2 .rlx (.rc 2) 0,
+ .ld 2 .rlx .word 300,
+ .cas 2 .acq .word 300 318 300 true,
+ .semPdRet 0 0 false,
+ .ld 0 .rlx (.waiting 0) 0,
+ .ld 0 .acq (.waiting 0) 0,
+ .ld 0 .rlx .word 318,
+ .cas 0 .acq .word 318 566 318 true,
+ .cond 0 .ge 3 true,
+ .ret 0 (.wait (some { fn := .ge, k := 3, var := 0, val := 1, hasEq := false }) none false) (.outc .ok),
+ .call 0 .runlock,
+ .cas 0 .rel .word 256 0 566 false,
+ .ld 0 .rlx .word 566,
+ .cas 0 .rel .word 566 310 566 true,
+ .ret 0 .runlock .void,
+ .ld 2 .rlx .word 310,
+ .cas 2 .rel .word 310 52 310 true,
+ .ld 2 .acq (.waiting 2) 1,
+ .semPdEnter 2 2 none
+]
+/-- the current acceptor (repaired code) rejects the trace: at its release load (event 71) the waiter
+    must now go on to nsync_mu_unlock_slow_ -/
+example : accepts ⟨false⟩ traceF8 = false ∧ accepts ⟨false⟩ (traceF8.take 71) = true := by decide
+
+/-- `Asleep`, decidably. -/
+def asleepB (s : State) (t : Tid) : Bool :=
+  match s.pc t with
+  | .lsPRet c => (match c.w with | some k => (s.wr k).sem == 0 | none => false)
+  | .mwPdRet c none => (match c.w with | some k => (s.wr k).sem == 0 | none => false)
+  | _ => false
+
+theorem asleep_of_asleepB {s : State} {t : Tid} (h : asleepB s t = true) : Asleep s t := by
+  unfold asleepB at h
+  split at h
+  · rename_i c hpc
+    split at h
+    · rename_i k hk; exact Or.inl ⟨c, k, hpc, hk, by simpa using h⟩
+    · cases h
+  · rename_i c hpc
+    split at h
+    · rename_i k hk; exact Or.inr ⟨c, k, hpc, hk, by simpa using h⟩
+    · cases h
+  · cases h
+
+/-- What the pinned code did (accepted by `runOld`): threads 0 and 1 idle holding nothing, thread 2
+    asleep in nsync_mu_wait, thread 3 asleep INSIDE nsync_mu_lock (program point `lsPRet`, semaphore 0),
+    contract ghost clean, word 52 with no lock bit, nobody owns anything — no thread can move. -/
+theorem C06_no_stuck_state_old_code_witness :
+    ∃ s, runOld ⟨false⟩ init traceF8 = .ok s ∧
+      (s.pc 0 = .idle ∧ s.held 0 = none) ∧ (s.pc 1 = .idle ∧ s.held 1 = none) ∧ Asleep s 2 ∧ Asleep s 3 ∧
+      (∃ c, s.pc 3 = .lsPRet c) ∧ s.nwViol = false ∧ encode s.word = 52 ∧ s.queue = [1, 2] ∧
+      s.wOwner = none ∧ s.rOwners = [] ∧ s.sp = none := by
+  have key : (match runOld ⟨false⟩ init traceF8 with
+      | .ok s => (s.pc 0 == .idle && s.held 0 == none) && (s.pc 1 == .idle && s.held 1 == none) && asleepB s 2 && asleepB s 3
+          && !s.nwViol && encode s.word == 52 && s.queue == [1, 2] && s.wOwner == none && s.rOwners == [] && s.sp == none
+          && (match s.pc 3 with | .lsPRet _ => true | _ => false)
+      | .error _ => false) = true := by decide
+  split at key
+  · rename_i s hs
+    simp only [Bool.and_eq_true, beq_iff_eq, Bool.not_eq_true'] at key
+    obtain ⟨⟨⟨⟨⟨⟨⟨⟨⟨⟨⟨h0, h0'⟩, ⟨h1, h1'⟩⟩, h2⟩, h3⟩, hnv⟩, hw⟩, hq⟩, ho⟩, hro⟩, hsp⟩, hpc3⟩ := key
+    refine ⟨s, hs, ⟨h0, h0'⟩, ⟨h1, h1'⟩, asleep_of_asleepB h2, asleep_of_asleepB h3, ?_, hnv, hw, hq, ho, hro, hsp⟩
+    split at hpc3
+    · rename_i c hc; exact ⟨c, hc⟩
+    · cases hpc3
+  · cases key
+
+/-- DEFECT F8, variant whose victim is a nsync_mu_wait waiter with a TRUE condition (harness execution of
+    the unmodified library, outcome `stuck`, /verif/corpus/C06/f8_muwait_true_condition_left_asleep.txt).
+    Queue [0: reader, x0 >= 1; 1: WRITER, x0 == 1].  Thread 2 sets x0 := 1; its nsync_mu_unlock evaluates
+    both conditions true, wakes the reader 0 and passes the writer 1 (MU_WRITER_WAITING and MU_DESIG_WAKER
+    set, word 60).  Thread 3 barges in (lock; unlock on the fast path): its acquire clears
+    MU_WRITER_WAITING (word 28), so the fresh reader 4 gets a read lock.  4 calls nsync_mu_wait on
+    x1 == 1 and queues itself with `had_waiters` = false (MU_DESIG_WAKER set); before its release CAS the
+    designated waker 0 acquires in read mode, returns and runlocks on the fast path; 4 releases without
+    nsync_mu_unlock_slow_.  Final state: word 20, no lock held, everybody idle or asleep, waiter 1 asleep
+    in nsync_mu_wait although its condition x0 == 1 was made true by a critical section that ended with
+    nsync_mu_unlock (and 4 waits for the x1 := 1 that 1 would write after its wait).  Repaired by ace4c21. -/
+def traceF8b : List Event := [
+ .call 0 .rlock,
+ .cas 0 .acq .word 0 256 0 true,
+ .ret 0 .rlock .void,
+ .call 0 (.wait (some { fn := .ge, k := 3, var := 0, val := 1, hasEq := false }) none false),
+ .ld 0 .rlx .word 256,
+ .cond 0 .ge 3 false,
+ .st 0 .rlx (.waiting 0) 1 0,
+ .ld 0 .rlx (.rc 0) 0,
+ .ld 0 .rlx .word 256,
+ .cas 0 .acq .word 256 278 256 true,
+ .ld 0 .rlx .word 278,
+ .cas 0 .rel .word 278 20 278 true,
+ .ld 0 .acq (.waiting 0) 1,
+ .semPdEnter 0 0 none,
+ .call 1 .lock,
+ .cas 1 .acq .word 0 1 20 false,
+ .ld 1 .rlx .word 20,
+ .cas 1 .acq .word 20 21 20 true,
+ .ret 1 .lock .void,
+ .call 1 (.wait (some { fn := .eq, k := 0, var := 0, val := 1, hasEq := false }) none false),
+ .ld 1 .rlx .word 21,
+ .cond 1 .eq 0 false,
+ .st 1 .rlx (.waiting 1) 1 0,
+ .ld 1 .rlx (.rc 1) 0,
+ .ld 1 .rlx .word 21,
+ .cas 1 .acq .word 21 23 21 true,
+ .ld 1 .rlx .word 23,
+ .cas 1 .rel .word 23 21 23 true,
+ .ld 1 .rlx .word 21,
+ .cas 1 .ar .word 21 31 21 true,
+ .ld 1 .rlx .word 31,
+ .cas 1 .rel .word 31 29 31 true,
+ .cond 1 .ge 3 false,
+ .cond 1 .eq 0 false,
+ .ld 1 .rlx .word 29,
+ .cas 1 .acq .word 29 31 29 true,
+ .ld 1 .rlx .word 31,
+ .cas 1 .rel .word 31 148 31 true,
+ .ld 1 .acq (.waiting 1) 1,
+ .semPdEnter 1 1 none,
+ .call 2 .lock,
+ .cas 2 .acq .word 0 1 148 false,
+ .ld 2 .rlx .word 148,
+ .cas 2 .acq .word 148 149 148 true,
+ .ret 2 .lock .void,
+ .dataW 2 0 1,
+ .call 2 .unlock,
+ .cas 2 .rel .word 1 0 149 false,
+ .ld 2 .rlx .word 149,
+ .ld 2 .rlx .word 149,
+ .cas 2 .ar .word 149 159 149 true,
+ .ld 2 .rlx .word 159,
+ .cas 2 .rel .word 159 157 159 true,
+ .cond 2 .ge 3 true,
+ .ld 2 .rlx (.rc 0) 0,
+ .cas 2 .rlx (.rc 0) 0 1 0 true,
+ .cond 2 .eq 0 true,
+ .ld 2 .rlx .word 157,
+ .cas 2 .acq .word 157 159 157 true,
+ .ld 2 .rlx .word 159,
+ .cas 2 .rel .word 159 60 159 true,
+ .st 2 .rel (.waiting 0) 0 1,
+ .semV 2 0,
+ .ret 2 .unlock .void,
+ .call 3 .lock,
+ .cas 3 .acq .word 0 1 60 false,
+ .ld 3 .rlx .word 60,
+ .cas 3 .acq .word 60 29 60 true,
+ .ret 3 .lock .void,
+ .call 3 .unlock,
+ .cas 3 .rel .word 1 0 29 false,
+ .ld 3 .rlx .word 29,
+ .cas 3 .rel .word 29 28 29 true,
+ .ret 3 .unlock .void,
+ .call 4 .rlock,
+ .cas 4 .acq .word 0 256 28 false,
+ .ld 4 .rlx .word 28,
+ .cas 4 .acq .word 28 284 28 true,
+ .ret 4 .rlock .void,
+ .call 4 (.wait (some { fn := .eq, k := 4, var := 1, val := 1, hasEq := false }) none false),
+ .ld 4 .rlx .word 284,
+ .cond 4 .eq 4 false,
+ .st 4 .rlx (.waiting 2) 1 0,
+ .ld 4 .rlx (.rc 2) 0,
+ .ld 4 .rlx .word 284,
+ .cas 4 .acq .word 284 286 284 true,
+ .semPdRet 0 0 false,
+ .ld 0 .rlx (.waiting 0) 0,
+ .ld 0 .acq (.waiting 0) 0,
+ .ld 0 .rlx .word 286,
+ .cas 0 .acq .word 286 534 286 true,
+ .cond 0 .ge 3 true,
+ .ret 0 (.wait (some { fn := .ge, k := 3, var := 0, val := 1, hasEq := false }) none false) (.outc .ok),
+ .call 0 .runlock,
+ .cas 0 .rel .word 256 0 534 false,
+ .ld 0 .rlx .word 534,
+ .cas 0 .rel .word 534 278 534 true,
+ .ret 0 .runlock .void,
+ .ld 4 .rlx .word 278,
+ .cas 4 .rel .word 278 20 278 true,
+ .ld 4 .acq (.waiting 2) 1,
+ .semPdEnter 4 2 none
+]
+example : accepts ⟨false⟩ traceF8b = false := by decide
+
+/-- What the pinned code did (accepted by `runOld`): everybody idle or asleep, word 20 with no lock bit,
+    contract ghost clean — and waiter 1 is queued, asleep, with a condition that is TRUE on the data. -/
+theorem C06_no_missed_cond_old_code_witness :
+    ∃ s, runOld ⟨false⟩ init traceF8b = .ok s ∧
+      (s.pc 0 = .idle ∧ s.held 0 = none) ∧ Asleep s 1 ∧ (s.pc 2 = .idle ∧ s.held 2 = none) ∧
+      (s.pc 3 = .idle ∧ s.held 3 = none) ∧ Asleep s 4 ∧ s.nwViol = false ∧ encode s.word = 20 ∧ s.queue = [1, 2] ∧
+      s.wOwner = none ∧ s.rOwners = [] ∧ s.sp = none ∧ ∃ c, (s.wr 1).cond = some c ∧ evalCond s.data c = true := by
+  have key : (match runOld ⟨false⟩ init traceF8b with
+      | .ok s => (s.pc 0 == .idle && s.held 0 == none) && asleepB s 1 && (s.pc 2 == .idle && s.held 2 == none)
+          && (s.pc 3 == .idle && s.held 3 == none) && asleepB s 4
+          && !s.nwViol && encode s.word == 20 && s.queue == [1, 2] && s.wOwner == none && s.rOwners == [] && s.sp == none
+          && (match (s.wr 1).cond with | some c => evalCond s.data c | none => false)
+      | .error _ => false) = true := by decide
+  split at key
+  · rename_i s hs
+    simp only [Bool.and_eq_true, beq_iff_eq, Bool.not_eq_true'] at key
+    obtain ⟨⟨⟨⟨⟨⟨⟨⟨⟨⟨⟨⟨h0, h0'⟩, h1⟩, ⟨h2, h2'⟩⟩, ⟨h3, h3'⟩⟩, h4⟩, hnv⟩, hw⟩, hq⟩, ho⟩, hro⟩, hsp⟩, hc⟩ := key
+    refine ⟨s, hs, ⟨h0, h0'⟩, asleep_of_asleepB h1, ⟨h2, h2'⟩, ⟨h3, h3'⟩, asleep_of_asleepB h4, hnv, hw, hq, ho, hro, hsp, ?_⟩
+    split at hc
+    · rename_i c hcd; exact ⟨c, hcd, hc⟩
+    · cases hc
+  · cases key
+
+/-! ## non-vacuity of the statements about quiescent states and responsibility -/
+
+/-- Non-vacuity of `C06_no_missed_cond` and `C06_no_stuck_state_partial`: the hypotheses hold in a state of a
+    harness execution of the real library (`traceNoWakeup`, 44 events: thread 1 has released with
+    nsync_mu_unlock_without_wakeup) — reachable, quiescent for EVERY thread id (the threads that take no
+    step are idle by `run_other`), contract kept, thread 0 asleep in nsync_mu_wait with its record, which
+    carries a condition, on the queue. -/
+theorem C06_quiescent_witness :
+    ∃ s, Reachable ⟨false⟩ s ∧ Quiescent s ∧ WithoutWakeupContract s ∧ Asleep s 0 ∧
+      ∃ c, 0 ∈ s.queue ∧ (s.wr 0).cond = some c := by
+  have key : (match run ⟨false⟩ init (traceNoWakeup.take 44) with
+      | .ok s => asleepB s 0 && (s.pc 1 == .idle && s.held 1 == none) && !s.nwViol && s.queue == [0] && (s.wr 0).cond.isSome
+      | .error _ => false) = true := by decide
+  have htid : (traceNoWakeup.take 44).all (fun e => match e.tid with | some u => decide (u < 2) | none => true) = true := by decide
+  split at key
+  · rename_i s hs
+    simp only [Bool.and_eq_true, beq_iff_eq, Bool.not_eq_true'] at key
+    obtain ⟨⟨⟨⟨h0, h1, h1'⟩, hnv⟩, hq⟩, hc⟩ := key
+    refine ⟨s, ⟨_, hs⟩, ?_, hnv, asleep_of_asleepB h0, ?_⟩
+    · intro t
+      by_cases e0 : t = 0
+      · subst e0; exact Or.inr (asleep_of_asleepB h0)
+      · by_cases e1 : t = 1
+        · subst e1; exact Or.inl ⟨h1, h1'⟩
+        · left
+          have := run_other (cfg := ⟨false⟩) t (traceNoWakeup.take 44) init s (by
+            intro e he hte
+            have := List.all_eq_true.mp htid e he
+            rw [hte] at this
+            simp only [decide_eq_true_eq] at this
+            have ar : ∀ n : Nat, n < 2 → n ≠ 0 → n ≠ 1 → False := by omega
+            exact ar t this e0 e1) hs
+          exact ⟨this.1, this.2⟩
+    · obtain ⟨c, hc'⟩ := Option.isSome_iff_exists.mp hc
+      exact ⟨c, by rw [hq]; simp, hc'⟩
+  · cases key
+
+example : ∃ s, Reachable ⟨false⟩ s ∧ Quiescent s ∧ ∃ c, 0 ∈ s.queue ∧ (s.wr 0).cond = some c ∧ evalCond s.data c = false := by
+  obtain ⟨s, hr, hq, hc, _, c, hk, hcd⟩ := C06_quiescent_witness
+  exact ⟨s, hr, hq, c, hk, hcd, C06_no_missed_cond _ s hr hq hc 0 c hk hcd⟩
+
+example : ∃ s k, Reachable ⟨false⟩ s ∧ Asleep s 0 ∧ (s.pc 0).pwait = some k ∧ k ∈ s.queue ∧ (s.wr k).waiting = true := by
+  obtain ⟨s, hr, hq, hc, ha, _⟩ := C06_quiescent_witness
+  obtain ⟨k, h1, h2, h3, _⟩ := C06_no_stuck_state_partial hr hq hc 0 ha
+  exact ⟨s, k, hr, ha, h1, h2, h3⟩
+
+/-- Non-vacuity of `C06_desig_waker_justified` / `C06_true_cond_has_responsible`: after 60 events of `traceF8b`
+    (a harness execution; the current model accepts this prefix) MU_DESIG_WAKER is set, the contract
+    ghost is clean and a waiter on mu->waiters has a condition that is true on the data. -/
+example : stateAfter ⟨false⟩ (traceF8b.take 60) (fun s => s.word.desig && !s.nwViol &&
+    s.queue.any (fun k => match (s.wr k).cond with | some c => evalCond s.data c | none => false)) = true := by decide
+
 /-- When nsync_mu_unlock_without_wakeup releases on its fast path (no waiter is examined or woken),
-    every queued waiter has a condition that was false when this write section began. -/
+    every queued waiter has a condition that was false when this write section began.
+    AS STATED: FALSE (`C06_without_wakeup_sound_full_refuted`) — the fast path is also taken when a
+    designated waker is in flight (MU_DESIG_WAKER, mu_wait.c:320), and then waiters without any
+    condition may be queued; the designated waker is responsible for them.  The corrected statement is
+    `C06_without_wakeup_sound`. -/
 def C06_without_wakeup_sound_full : Prop :=
   ∀ (cfg : Cfg) (s s' : State) (t : Tid) (old : Word) (o : Ord) (loc : Loc) (exp new obs : Nat),
     Reachable cfg s → s.pc t = .ulCas1 .W true old →
     step cfg s (.cas t o loc exp new obs true) = .ok s' →
     ∀ k, Queued s k → ∃ c, (s.wr k).cond = some c ∧ evalCond s.secStart c = false
+
+/-- Threads 1 and 2 queue behind the writer 0 (no conditions); 0's nsync_mu_unlock wakes 1 and leaves
+    MU_DESIG_WAKER set (word 44); before 1 runs, thread 3 barges in (44 → 13) and is about to release
+    with nsync_mu_unlock_without_wakeup: fast path because of MU_DESIG_WAKER, while 2 is still queued. -/
+def traceNwDesig : List Event := [
+ .call 0 .lock, .cas 0 .acq .word 0 1 0 true, .ret 0 .lock .void,
+ .call 1 .lock, .cas 1 .acq .word 0 1 1 false, .ld 1 .rlx .word 1, .ld 1 .rlx .word 1,
+ .cas 1 .acq .word 1 39 1 true, .st 1 .rlx (.waiting 0) 1 0, .ld 1 .rlx .word 39, .cas 1 .rel .word 39 37 39 true,
+ .ld 1 .acq (.waiting 0) 1, .semPEnter 1 0,
+ .call 2 .lock, .cas 2 .acq .word 0 1 37 false, .ld 2 .rlx .word 37, .ld 2 .rlx .word 37,
+ .cas 2 .acq .word 37 39 37 true, .st 2 .rlx (.waiting 1) 1 0, .ld 2 .rlx .word 39, .cas 2 .rel .word 39 37 39 true,
+ .ld 2 .acq (.waiting 1) 1, .semPEnter 2 1,
+ .call 0 .unlock, .cas 0 .rel .word 1 0 37 false, .ld 0 .rlx .word 37, .ld 0 .rlx .word 37,
+ .cas 0 .ar .word 37 46 37 true, .ld 0 .rlx (.rc 0) 0, .cas 0 .rlx (.rc 0) 0 1 0 true,
+ .ld 0 .rlx .word 46, .cas 0 .rel .word 46 44 46 true, .st 0 .rel (.waiting 0) 0 1, .semV 0 0, .ret 0 .unlock .void,
+ .call 3 .lock, .cas 3 .acq .word 0 1 44 false, .ld 3 .rlx .word 44, .cas 3 .acq .word 44 13 44 true, .ret 3 .lock .void,
+ .call 3 .unlockNw, .cas 3 .rel .word 1 0 13 false, .ld 3 .rlx .word 13
+]
+
+def nwDesigCheck : Bool :=
+  match run ⟨false⟩ init traceNwDesig with
+  | .ok s => s.pc 3 == .ulCas1 .W true (decode 13) && s.queue == [1] && (s.wr 1).cond == none &&
+      (match step ⟨false⟩ s (.cas 3 .rel .word 13 12 13 true) with | .ok _ => true | .error _ => false)
+  | .error _ => false
+
+theorem C06_without_wakeup_sound_full_refuted : ¬ C06_without_wakeup_sound_full := by
+  intro h
+  have key : nwDesigCheck = true := by decide
+  unfold nwDesigCheck at key
+  split at key
+  · rename_i s hs
+    simp only [Bool.and_eq_true, beq_iff_eq] at key
+    obtain ⟨⟨⟨h1, h2⟩, h3⟩, h4⟩ := key
+    split at h4
+    · rename_i s' hs'
+      have hr : Reachable ⟨false⟩ s := ⟨_, hs⟩
+      obtain ⟨c, hc, _⟩ := h ⟨false⟩ s s' 3 (decode 13) .rel .word 13 12 13 hr h1 hs' 1 (Or.inl (by rw [h2]; simp))
+      rw [h3] at hc; cases hc
+    · cases h4
+  · cases key
+
+/-- Corrected: when nsync_mu_unlock_without_wakeup releases on its fast path BECAUSE MU_ALL_FALSE IS SET
+    (the only reason besides "no waiters" and "a designated waker is in flight", mu_wait.c:318-320), and
+    every write section that ended with that call so far — this one included — kept its contract, then
+    every queued waiter has a condition and it is false on the protected data as the section leaves it:
+    nobody whose condition is true is left asleep.  (Under the contract "false now" is what the client
+    needs; that the conditions were false when the section began is the content of the contract ghost
+    `nwViol`, computed by the acceptor at the call.) -/
+theorem C06_without_wakeup_sound {cfg : Cfg} {s s' : State} {t : Tid} {old : Word} {o : Ord} {loc : Loc} {exp new obs : Nat}
+    (hr : Reachable cfg s) (hpc : s.pc t = .ulCas1 .W true old)
+    (h : step cfg s (.cas t o loc exp new obs true) = .ok s') (haf : old.af = true) (hc : WithoutWakeupContract s) :
+    ∀ k, Queued s k → ∃ c, (s.wr k).cond = some c ∧ evalCond s.data c = false := by
+  intro k hk
+  have h1 := reachable_inv1 hr
+  have hw : s.word = old := by
+    simp only [step, stepCas, hpc] at h
+    rcases casWord_ok h with ⟨e, _, _⟩ | ⟨_, e, _⟩
+    · exact e
+    · cases e
+  have hown : s.wOwner = some t := owner_of_pcShare h1 hpc rfl
+  have hheld : s.held t = none := held_none_of_pc h1 hpc (by simp)
+  have hns := no_susp_of_owner h1 hown (by rw [hpc]; rfl)
+  have hcl : ¬ SecOpen s := not_secOpen_of_owner h1 hown (by rw [hheld]; simp) (by rw [hpc]; rfl)
+  obtain ⟨c, h1', _, h3⟩ := (C06_hint_all_false hr (by rw [hw]; exact haf) k hk).2 hc hns
+  exact ⟨c, h1', h3 hcl⟩
+
+/-- Non-vacuity: the second nsync_mu_unlock_without_wakeup of `traceNoWakeup` is at its fast-path CAS
+    (event 42: 149 → 148) with MU_ALL_FALSE set, the contract kept and the waiter queued. -/
+example : stateAfter ⟨false⟩ (traceNoWakeup.take 42) (fun s => s.pc 1 == .ulCas1 .W true (decode 149) && (decode 149).af
+    && !s.nwViol && s.queue == [0]
+    && (match step ⟨false⟩ s (.cas 1 .rel .word 149 148 149 true) with | .ok _ => true | .error _ => false)) = true := by decide
+
+/-- All three reasons of the fast path of nsync_mu_unlock_without_wakeup together (no waiters / a
+    designated waker / MU_ALL_FALSE, mu_wait.c:318-320; model of the repaired code): when the release CAS
+    succeeds and the contract was kept, either no queued waiter has a condition that is true on the
+    data the section leaves behind, or ANOTHER thread is responsible for the queue (it owns a share, is an
+    unlocker mid-scan, is in flight, or spins after a timeout) — with MU_DESIG_WAKER it is the designated
+    waker itself (`C06_desig_waker_justified`). -/
+theorem C06_without_wakeup_no_missed {cfg : Cfg} {s s' : State} {t : Tid} {old : Word} {o : Ord} {loc : Loc} {exp new obs : Nat}
+    (hr : Reachable cfg s) (hpc : s.pc t = .ulCas1 .W true old)
+    (h : step cfg s (.cas t o loc exp new obs true) = .ok s') (hc : WithoutWakeupContract s) :
+    (∀ k c, Queued s k → (s.wr k).cond = some c → evalCond s.data c = false) ∨ ∃ u, u ≠ t ∧ RespT s u := by
+  have ha := reachable_inv_all hr
+  have h1 := ha.1
+  have hw : s.word = old := by
+    simp only [step, stepCas, hpc] at h
+    rcases casWord_ok h with ⟨e, _, _⟩ | ⟨_, e, _⟩
+    · exact e
+    · cases e
+  have hheld : s.held t = none := held_none_of_pc h1 hpc (by simp)
+  have hsh : shareOf s t = some .W := by simp [shareOf, tshare, hheld, hpc, pcShare]
+  have hns : ¬ StrongResp s t := by
+    rintro (a | a | ⟨k, a, _⟩) <;> rw [hpc] at a <;> simp [PC.unl, PC.woken, PC.waitRec] at a
+  have hok8 := reachable_inv8 hr t
+  rw [hpc, ← hw] at hok8
+  have key : ¬ NeedC s ∨ ∃ u, u ≠ t ∧ RespT s u := by
+    refine resp_or_quiet h1 ha.2.2.2.2.2 (reachable_inv9 hr) (reachable_inv11 hr) hns hc ?_
+    cases hwt : s.word.waiting with
+    | false => exact Or.inl rfl
+    | true =>
+      cases hdg : s.word.desig with
+      | true => exact Or.inr (Or.inl rfl)
+      | false =>
+        right; right; right
+        simp only [PC.ok8, hwt, hdg, Bool.not_false, Bool.and_true, Bool.true_and] at hok8
+        have hok8' : s.word.af = true := by simpa using hok8
+        exact ⟨hok8', by rw [hsh]; simp, by rw [hpc]; rfl, by rw [hpc]; rfl, hheld⟩
+  rcases key with a | a
+  · left
+    intro k c hk hcd
+    cases hev : evalCond s.data c with
+    | false => rfl
+    | true => exact absurd ⟨k, c, hk, hcd, hev⟩ a
+  · exact Or.inr a
+
+/-- The contract hypothesis is necessary, and the acceptor's contract ghost sees a violation even when
+    the section contains a nsync_mu_wait that returned at once (no release, no wake-up, mu_wait.c:170):
+    after the first nsync_mu_unlock_without_wakeup of `traceNoWakeup` has set MU_ALL_FALSE, thread 1
+    locks, makes the waiter's condition true, calls nsync_mu_wait with a NULL condition (returns at
+    once) and releases with nsync_mu_unlock_without_wakeup on the fast path: the waiter stays asleep
+    with a TRUE condition — `nwViol` is set.  (With the snapshot `secStart` re-taken at the return of
+    that nsync_mu_wait, as the model did before this proof, the violation went unnoticed.) -/
+def traceNwViol : List Event := traceNoWakeup.take 33 ++ [
+ .call 1 .lock, .cas 1 .acq .word 0 1 148 false, .ld 1 .rlx .word 148, .cas 1 .acq .word 148 149 148 true, .ret 1 .lock .void,
+ .dataW 1 0 1,
+ .call 1 (.wait none none false), .ld 1 .rlx .word 149, .ret 1 (.wait none none false) (.outc .ok),
+ .call 1 .unlockNw, .cas 1 .rel .word 1 0 149 false, .ld 1 .rlx .word 149, .cas 1 .rel .word 149 148 149 true, .ret 1 .unlockNw .void]
+example : stateAfter ⟨false⟩ traceNwViol (fun s => s.nwViol && s.queue == [0] && s.word.af && evalOpt s.data (s.wr 0).cond
+    && s.wOwner == none && s.sp == none) = true := by decide
 
 end NsyncVerif.MuC
